@@ -30,6 +30,7 @@ type vDriver struct {
 	replies  [][]byte // Broadcast: collected datagrams
 	events   [][]byte // Listen: datagrams fed to the handler
 	lstErr   error    // Listen: error returned by the driver
+	async    bool     // Listen: deliver from a goroutine through one reused receive buffer, like the real driver
 }
 
 func (d *vDriver) record(method string, ip net.IP, port int, zone string, req []byte) {
@@ -94,6 +95,22 @@ func (d *vDriver) Listen(signal chan any, done chan any, handler func([]byte)) e
 	d.method = "Listen"
 	if d.lstErr != nil {
 		return d.lstErr
+	}
+	if d.async {
+		go func() {
+			buf := make([]byte, 2048)
+			for _, m := range d.events {
+				if len(m) == 64 {
+					copy(buf[:64], m[:64]) // every datagram arrives in the same buffer
+					handler(buf[:64])
+				} else {
+					handler(m)
+				}
+			}
+			<-signal
+			close(done)
+		}()
+		return nil
 	}
 	for _, m := range d.events {
 		handler(m)
